@@ -3,6 +3,7 @@ package main
 import (
 	"fmt"
 	"strings"
+	"sync"
 
 	. "verifh/hc"
 	"verifh/rd"
@@ -53,9 +54,14 @@ func (p *prog) do(op string) string {
 		return "stopped"
 	}
 	before := len(p.s.Handles)
-	res, stop := p.s.Do(op)
+	// the op is recorded before it runs: if it never returns the watchdog still has the case
+	progMu.Lock()
 	p.ops = append(p.ops, op)
+	progMu.Unlock()
+	res, stop := p.s.Do(op)
+	progMu.Lock()
 	p.obs = append(p.obs, res)
+	progMu.Unlock()
 	if len(p.s.Handles) > before {
 		pi := parseP(res)
 		pi.loc = p.s.Loc[before]
@@ -74,6 +80,18 @@ func (p *prog) do(op string) string {
 		p.stopped = true
 	}
 	return res
+}
+
+// the program being generated / executed, for the per-case watchdog
+var (
+	curProg *prog
+	progMu  sync.Mutex
+)
+
+func setCur(p *prog) {
+	progMu.Lock()
+	curProg = p
+	progMu.Unlock()
 }
 
 func atoi(s string) int { var x int; fmt.Sscan(s, &x); return x }
@@ -464,11 +482,16 @@ func (p *prog) navigate(loc byte) {
 	switch {
 	case pi.bit:
 		p.do(fmt.Sprintf("bitat:%d:%d", h, i))
-	case pi.comp || (pi.pc > 0 && r.Intn(3) == 0):
-		if r.Intn(3) == 0 {
+	case pi.comp || (pi.pc > 0 && r.Intn(3) == 0) || r.Intn(4) == 0:
+		// List.Struct(i) also of primitive lists (element = struct with a 1/2/4/8-byte data
+		// section, a list member) and of pointer lists: sources of copies
+		if r.Intn(3) == 0 && (pi.comp || pi.pc > 0) {
 			p.do(fmt.Sprintf("plat:%d:%d", h, i))
 		} else {
 			p.do(fmt.Sprintf("lstruct:%d:%d", h, i))
+			if pi.dsz%8 != 0 {
+				p.st.oddMembers++
+			}
 		}
 	case pi.pc > 0:
 		p.do(fmt.Sprintf("plat:%d:%d", h, i))
@@ -586,6 +609,7 @@ func genAdaptive(r *Rand, st *genStats, copyHeavy bool) *prog {
 		}
 	}
 	p := &prog{r: r, h: h, st: st}
+	setCur(p)
 	s, ok := NewSession(h)
 	if !ok {
 		return p
@@ -634,9 +658,27 @@ func genAdaptive(r *Rand, st *genStats, copyHeavy bool) *prog {
 				p.do("root:d")
 			}
 		}
+		if r.Intn(60) == 0 {
+			p.reopen()
+		}
 	}
 	p.finish(hasSrc, copyHeavy)
 	return p
+}
+
+// reopen: Marshal, decode, keep building in the decoded message (whose buffers have cap = len)
+func (p *prog) reopen() {
+	if p.do("reopen:"+[]string{"u", "d"}[p.r.Intn(2)]) != "ok" {
+		return
+	}
+	p.st.reopens++
+	for i := range p.infos {
+		if p.infos[i].loc == 'd' {
+			p.infos[i].kind = -1
+		}
+	}
+	p.do("dump:d")
+	p.do("root:d")
 }
 
 // finish: independence (mutate both sides, re-read both) and the final observations
@@ -673,6 +715,18 @@ func (p *prog) finish(hasSrc, copyHeavy bool) {
 	p.do(fmt.Sprintf("walk:%d:%s", rootH, wa))
 	p.do("rt:" + wa)
 	p.do("dump:d")
+}
+
+// lineLocked: case line and observations so far (progMu held by the caller)
+func (p *prog) lineLocked() (string, string) {
+	ops := strings.Join(p.ops, ";")
+	if ops == "" {
+		ops = "-"
+	}
+	if p.s == nil {
+		return p.h.String() + " " + ops, "new:ok"
+	}
+	return p.h.String() + " " + ops, strings.Join(append([]string{"new:ok"}, p.obs...), ";")
 }
 
 func (p *prog) line() (string, string) {
